@@ -110,7 +110,9 @@ structure Env where
 inductive Ctl where
   | next (env : Env N)
   | brk
-  | cont
+  /-- `continue`; carries the environment of the enclosing block at the statement that continued
+  (a `repeat` condition is evaluated in it) -/
+  | cont (env : Env N)
   | ret (vs : List (Val N))
 
 /-- how closures are called at the current level -/
@@ -960,31 +962,7 @@ mutual
       let (id, σ2) := σ1.allocClosure ⟨body, locals, []⟩
       .ok (.next { env with locals := locals }) (σ2.setCell cell (.fn id))
     | .repeat_ body cond, σ =>
-      (whileLoop (fun σ =>
-          match body with
-          | .mk stmts last =>
-            -- the condition is evaluated in the scope of the body
-            (execSs env stmts σ).bind fun c σ1 =>
-              match c with
-              | .next env' =>
-                let afterLast : Res N (Ctl N) := match last with
-                  | none => .ok (.next env') σ1
-                  | some l => execLast env' l σ1
-                afterLast.bind fun c2 σ2 =>
-                  match c2 with
-                  | .next env'' =>
-                    (evalE env'' cond σ2).bind fun cv σ3 =>
-                      if (first cv).truthy then .ok (some .brk) σ3 else .ok (some (.next env)) σ3
-                  | .cont =>
-                    (evalE env' cond σ2).bind fun cv σ3 =>
-                      if (first cv).truthy then .ok (some .brk) σ3 else .ok (some (.next env)) σ3
-                  | other => .ok (some other) σ2
-              | .cont =>
-                -- `continue` jumps to the condition; locals declared so far are those of `env`
-                (evalE env cond σ1).bind fun cv σ3 =>
-                  if (first cv).truthy then .ok (some .brk) σ3 else .ok (some (.next env)) σ3
-              | other => .ok (some other) σ1)
-        k σ).bind fun r σ' =>
+      (whileLoop (fun σ => repeatStep env (fun env' σ' => evalE env' cond σ') body σ) k σ).bind fun r σ' =>
         match r with
         | some rv => .ok (.ret rv) σ'
         | none => .ok (.next env) σ'
@@ -999,6 +977,32 @@ mutual
         | none => .ok (.next env) σ'
     | .typeDecl _ _ _, σ => .ok (.next env) σ
     | .typeFn _ _ _, σ => .ok (.next env) σ
+
+  /-- One iteration of `repeat body until cond`; `evalCond` evaluates the condition, which is in
+  the scope of the body's locals. Result: `some .brk` = stop, `some (.next _)` = iterate again. -/
+  def repeatStep (env : Env N) (evalCond : Env N → State N → Res N (List (Val N))) :
+      Block → State N → Res N (Option (Ctl N))
+    | .mk stmts last, σ =>
+      (execSs env stmts σ).bind fun c σ1 =>
+        match c with
+        | .next env' =>
+          let afterLast : Res N (Ctl N) := match last with
+            | none => .ok (.next env') σ1
+            | some l => execLast env' l σ1
+          afterLast.bind fun c2 σ2 =>
+            match c2 with
+            | .next env'' =>
+              (evalCond env'' σ2).bind fun cv σ3 =>
+                if (first cv).truthy then .ok (some .brk) σ3 else .ok (some (.next env)) σ3
+            | .cont envc =>
+              (evalCond envc σ2).bind fun cv σ3 =>
+                if (first cv).truthy then .ok (some .brk) σ3 else .ok (some (.next env)) σ3
+            | other => .ok (some other) σ2
+        | .cont envc =>
+          -- `continue` jumps to the condition, which sees the locals declared so far
+          (evalCond envc σ1).bind fun cv σ3 =>
+            if (first cv).truthy then .ok (some .brk) σ3 else .ok (some (.next env)) σ3
+        | other => .ok (some other) σ1
 
   /-- `none`: no branch condition held -/
   def execBranches (env : Env N) : List (Expr × Block) → State N → Res N (Option (Ctl N))
@@ -1018,12 +1022,13 @@ mutual
       (execS env s σ).bind fun c σ' =>
         match c with
         | .next env' => execSs env' rest σ'
+        | .cont _ => .ok (.cont env) σ'
         | other => .ok other σ'
 
   def execLast (env : Env N) : Last → State N → Res N (Ctl N)
     | .ret es, σ => (evalEs env es σ).bind fun vs σ' => .ok (.ret vs) σ'
     | .brk, σ => .ok .brk σ
-    | .cont, σ => .ok .cont σ
+    | .cont, σ => .ok (.cont env) σ
 
   def execB (env : Env N) : Block → State N → Res N (Ctl N)
     | .mk stmts last, σ =>
